@@ -60,6 +60,8 @@ def focus_opts(focus: str, ch: Choices, known: dict, params: dict) -> dict:
     o = {"gcc_zero_cap": not known.get("gcc_zero_cap_excluded", False)}
     if focus == "C10":
         o["force_cons"] = 1
+    if focus in ("C01", "C02", "C03", "C08", "C17", "C10", "C07"):
+        o["custom_checker"] = True  # a user-registered constraint woken by instantiations only
     if focus in ("C01", "C02", "C03", "C09", "C16", "C17", "C08", "C04", "C07", "C10"):
         o["pad_chance"] = 30  # one run in 30: all real indices beyond 254..300 instantiated padding domains
     if params.get("types"):
@@ -260,7 +262,13 @@ def run_c15(ch: Choices, params: dict, known: dict) -> dict:
                     pb.add_propagator((list(vs), nucsio.ALG_INDEX[alg], list(prm)))
                 out["probes"]["problem_completed_after_a_first_solver"] += 1
                 out["probes"]["first_solver_on_a_problem_without_constraints"] += 1 if j == 0 else 0
-            run_one(Choices(seed=sub), "C15", model, cfg, mode, "native", ref, out, problem=pb)
+            cfg_b = cfg
+            if (cfg["var_params"] != [[]] or cfg["dom_params"] != [[]]) and ch.chance(1, 2, "caller_buffer"):
+                # same configuration, but the cost tables arrive in the caller's own int64 array, which the caller
+                # refills with other values as soon as the solver is built (nucsio.build_solver)
+                cfg_b = dict(cfg, caller_buffer=True)
+                out["probes"]["cost_tables_in_a_caller_owned_array_refilled_after_construction"] += 1
+            run_one(Choices(seed=sub), "C15", model, cfg_b, mode, "native", ref, out, problem=pb)
         b = out.pop("_last")
         out["faults"]["dirty-allocator"] += 2
         if reuse:
